@@ -136,10 +136,16 @@ def run_check(mod, tier, seed, jobs=None, limit=None, verbose=False):
     if verbose:
         for t, c in sorted(stats.get("slow", []), key=lambda x: -x[0])[:12]:
             sys.stderr.write("  %.1fs %s\n" % (t, json.dumps(c, default=str)[:200]))
+    machinery_failed = False
     if stats["machinery"]:
         case, msg = stats["machinery"][0]
         sys.stderr.write("MACHINERY ERROR in %s: %s\ncase: %s\n" % (mod.ID, msg, json.dumps(case, default=str)[:2000]))
-        return C.EXIT_MACHINERY
+        # A case the machinery could not evaluate is never a verdict - but it does not erase a violation that OTHER
+        # cases showed on real executions (confirmed by re-execution below): those are still reported, exit status 1.
+        # Without such a violation the run ends with the machinery status and writes no evidence.
+        machinery_failed = True
+        if not violations:
+            return C.EXIT_MACHINERY
 
     # -- confirm each distinct violation by re-executing its case (bounded work: one per signature)
     confirmed = []
@@ -187,6 +193,8 @@ def run_check(mod, tier, seed, jobs=None, limit=None, verbose=False):
         print("VIOLATION property=%s replay=%s" % (mod.ID, p))
         print("  " + json.dumps({kk: vv for kk, vv in v.items()}, sort_keys=True, default=str)[:1500])
 
+    if machinery_failed and not printed:
+        return C.EXIT_MACHINERY
     complaints = []
     if hasattr(mod, "finish"):
         complaints = mod.finish(stats, tier) or []
@@ -222,7 +230,7 @@ def run_check(mod, tier, seed, jobs=None, limit=None, verbose=False):
     if complaints:
         for c in complaints:
             sys.stderr.write("VACUITY: %s\n" % c)
-        return C.EXIT_MACHINERY
+        return 1 if printed else C.EXIT_MACHINERY
     return 1 if printed else 0
 
 
